@@ -162,9 +162,10 @@ func (c *ClusterNodes) isChanged(allNodes []*ClusterNode) (changed bool) {
 	var serverNames []string
 	for _, n := range allNodes {
 		if n.Role == Master {
-			serverNames = append(serverNames, fmt.Sprintf("%s#%d#%v", n.Addr, n.Role, n.Slots))
+			serverNames = append(serverNames, fmt.Sprintf("%s#%d#%s#%v", n.Addr, n.Role, n.Name, n.Slots))
 		} else {
-			serverNames = append(serverNames, fmt.Sprintf("%s#%d", n.Addr, n.Role))
+			// which master a replica follows decides which replica set it serves reads for
+			serverNames = append(serverNames, fmt.Sprintf("%s#%d#%s", n.Addr, n.Role, n.MasterId))
 		}
 	}
 	sort.Strings(serverNames)
